@@ -1433,12 +1433,19 @@ func (p *PikeVM) addThread(t thread, haystack []byte, pos int) {
 		// For alternation: left=first alt, right=second alt → first alt explored first
 		left, right := state.Split()
 
+		// The right branch gets its reference BEFORE the left branch is explored:
+		// taking it afterwards would share whatever the left branch wrote in
+		// place while it was the only owner ((a)* on "a" reported group 1 as
+		// [1 1], the start of the extra iteration that failed).
+		rightCaps := t.captures
+		if right != InvalidState {
+			rightCaps = t.captures.clone()
+		}
 		if left != InvalidState {
 			p.addThread(thread{state: left, startPos: t.startPos, captures: t.captures}, haystack, pos)
 		}
 		if right != InvalidState {
-			// Clone captures for right branch to ensure COW works properly.
-			p.addThread(thread{state: right, startPos: t.startPos, captures: t.captures.clone()}, haystack, pos)
+			p.addThread(thread{state: right, startPos: t.startPos, captures: rightCaps}, haystack, pos)
 		}
 
 	case StateCapture:
@@ -1536,11 +1543,17 @@ func (p *PikeVM) addThreadToNext(t thread, haystack []byte, pos int) {
 	case StateSplit:
 		left, right := state.Split()
 
+		// Reference for the right branch is taken before the left one can write
+		// in place (see addThread).
+		rightCaps := t.captures
+		if right != InvalidState {
+			rightCaps = t.captures.clone()
+		}
 		if left != InvalidState {
 			p.addThreadToNext(thread{state: left, startPos: t.startPos, captures: t.captures}, haystack, pos)
 		}
 		if right != InvalidState {
-			p.addThreadToNext(thread{state: right, startPos: t.startPos, captures: t.captures.clone()}, haystack, pos)
+			p.addThreadToNext(thread{state: right, startPos: t.startPos, captures: rightCaps}, haystack, pos)
 		}
 		return
 
